@@ -79,7 +79,16 @@ def observe(cls, data, pc, m, sizes, file_mode, rng, fill_seed):
         groups.append(frags[i:i + s])
         i += s
     store = frozenset([sop]) if (file_mode and sop) else frozenset()
-    ae = applicationentity.ClientAE('VERIF')
+    # the two get_file implementations of the library: a temporary file (AE / ClientAE) and a file in a storage
+    # directory (StorageAE / ClientStorageAE)
+    tmpdir = None
+    if file_mode == 'dir':
+        import tempfile
+        import pynetdicom2
+        tmpdir = tempfile.mkdtemp(prefix='c07-', dir=common.BUILD)
+        ae = pynetdicom2.ClientStorageAE(tmpdir, 'VERIF')
+    else:
+        ae = applicationentity.ClientAE('VERIF')
     ctxs = {pc: asceprovider.PContextDef(pc, pyuid.UID(sop or '1.2'), pyuid.UID(IMPLICIT))}
     dec = fsm.DIMSEDecoder(ctxs, store, ae.get_file)
     flags = []
@@ -107,17 +116,26 @@ def observe(cls, data, pc, m, sizes, file_mode, rng, fill_seed):
             dat = bytes(dsv)
         else:
             in_file = True
+            # as handed over: an application reads the DICOM file from the position it is given
+            try:
+                handed = pydicom.dcmread(dsv)
+                handed_ok = (dsutils.encode(handed, True, True) == data)
+            except Exception:
+                handed_ok = False
             dsv.seek(0)
             dat = dsv.read()
             prefix = dat[:len(dat) - len(data)]
             try:
                 ds = pydicom.dcmread(io.BytesIO(dat))
-                file_ok = (dsutils.encode(ds, True, True) == data and
+                file_ok = (handed_ok and dsutils.encode(ds, True, True) == data and
                            str(ds.file_meta.TransferSyntaxUID) == IMPLICIT)
             except Exception:
                 file_ok = False
             dsv.close()
         final = (type(m_).command_field, dsutils.encode(m_.command_set, True, True), dat, in_file, dec.pc_id)
+    if tmpdir:
+        import shutil
+        shutil.rmtree(tmpdir, ignore_errors=True)
     return dict(cls=cls.__name__, cf=cls.command_field, cmd=cmd, data=data or b'', pc=pc, m=m, sizes=sizes,
                 groups=[[(v.context_id, bytes(v.data_value)) for v in g] for g in groups], flags=flags, final=final,
                 file_ok=file_ok, err=err, store=sorted(store), prefix=prefix, file_mode=file_mode)
@@ -152,7 +170,7 @@ def main(tier, seed):
         for data_size, m in ((0, 16384), (0, 40), (10, 16384), (60, 64), (200, 90)):
             data = sample_dataset(rng, data_size) if data_size else b''
             can_file = ('AffectedSOPInstanceUID' in cls.command_fields and 'AffectedSOPClassUID' in cls.command_fields)
-            for file_mode in ((False, True) if (data_size and can_file) else (False,)):
+            for file_mode in ((False, True, 'dir') if (data_size and can_file) else (False,)):
                 k += 1
                 n = sum(1 for _ in impl.send_and_collect(_msg_like(cls, data, k), 1, m)[1])
                 comps = list(compositions(n, limit, rng))
